@@ -434,16 +434,23 @@ package transport
 // window computed in signed arithmetic; afterwards both ledgers are charged with
 // exactly that size.
 //@ func (*loopyWriter).processData
-//@   prop C01 C03
+//@   prop C01 C03 C02
 //@   opt purecalls replenish onEachWrite
 //@   requires l != nil && l.activeStreams != nil && l.framer != nil
-//@   assert at return 1 l.sendQuota == 0 && ncalls("writeData") == 0
+//@   assert at return 1 l.sendQuota == 0 && ncalls("writeData") == 0 && result0
+//@   assert at return 2 result0 && str == nil && ncalls("writeData") == 0
+//@   assert at return 3 !result0
+//@   assert at return 4 !result0
+//@   assert at return 5 !result0
+//@   assert at return 6 !result0
 //@   assert at return 3 strQuota <= 0 && strQuota == int(l.oiws)-str.bytesOutStanding && str.state == waitingOnStreamQuota && ncalls("writeData") == 0
 //@   assert at call writeData#1 arg1 == dataItem.streamID && 0 <= size && size <= 16384 && size == hSize+dSize
 //@   assert at call writeData#1 Z(size) <= Z(l.sendQuota) && l.sendQuota == old(l.sendQuota)
 //@   assert at call writeData#1 strQuota == int(l.oiws)-str.bytesOutStanding && size <= max(strQuota, 0)
 //@   assert at call writeData#1 arg2 == (dataItem.endStream && remainingBytes == 0)
 //@   assert at call writeData#1 implies(!isEmpty, size > 0)
+//@   assert at call Peek#1 arg1 == dSize && dSize > 0
+//@   assert at call updateStreamAfterWrite#1 ncalls("dequeue") == ite(remainingBytes == 0, 2, 1) && ncalls("writeData") == 1
 //@   assert at call replenish#1 arg0 == size
 //@   assert at call Discard#1 arg1 == dSize
 //@   assert at call updateStreamAfterWrite#1 arg1 == str && str.bytesOutStanding == int(l.oiws)-strQuota+size && l.sendQuota == old(l.sendQuota)-uint32(size)
@@ -460,11 +467,7 @@ package transport
 //@   assert at return end ncalls("enqueue") == 0 && implies(w.streamID != 0 && haskey(l.estdStreams, w.streamID), !(int(l.oiws)-l.estdStreams[w.streamID].bytesOutStanding > 0 && l.estdStreams[w.streamID].state == waitingOnStreamQuota))
 
 // After a write the stream goes back to the active list only with stream window left.
-//@ func (*loopyWriter).updateStreamAfterWrite
-//@   prop C01 C03
-//@   assert at call enqueue#1 arg1 == str && Z(l.oiws) - Z(str.bytesOutStanding) > 0
-//@   assert at return 3 (ncalls("enqueue") == 1) == (lastret("isEmpty") == 0 && ncalls("writeHeader") == 0 && int(l.oiws)-str.bytesOutStanding > 0)
-//@   assert at return 3 implies(lastret("isEmpty") == 0 && ncalls("writeHeader") == 0 && int(l.oiws)-str.bytesOutStanding <= 0, str.state == waitingOnStreamQuota)
+// (updateStreamAfterWrite: one contract block, in the C02 section below)
 
 // ---- C14: GOAWAY -----------------------------------------------------------------------------------------
 //
@@ -607,3 +610,73 @@ package transport
 //@   loop 2 invariant o < l.oiws && forallk(func(k uint32) bool { return implies(visited(k) && haskey(l.estdStreams, k), l.estdStreams[k].state != waitingOnStreamQuota) })
 //@   loop 2 exit forallk(func(k uint32) bool { return implies(haskey(l.estdStreams, k), l.estdStreams[k].state != waitingOnStreamQuota) })
 //@   assert at call enqueue#1 arg1 == stream && stream.state == active
+
+// ---- C02: per-stream order of outbound frames, END_STREAM, nothing after RST / trailers -----------
+//
+// The writer keeps one FIFO item list per stream (itemList: trusted FIFO) and
+// serves it from the head. Data for a stream that has been removed from the
+// established set is dropped; trailers wait behind queued data; a stream is
+// removed from the established set before its RST_STREAM is written.
+
+// DATA from the application: dropped when the stream is not established (after
+// its trailers or RST_STREAM); otherwise appended to the END of that stream's
+// own queue, and an idle stream becomes active.
+//@ func (*loopyWriter).preprocessData
+//@   prop C02
+//@   requires l != nil && df != nil
+//@   assert at return 1 !haskey(l.estdStreams, df.streamID) && ncalls("enqueue") == 0
+//@   assert at call enqueue#1 haskey(l.estdStreams, df.streamID) && str == l.estdStreams[df.streamID] && arg0 == str.itl && arg1 == df
+//@   assert at call enqueue#2 arg1 == str && str.state == active && ncalls("enqueue") == 1
+//@   assert at return end ncalls("enqueue") >= 1 && str.state != empty
+
+// Server HEADERS: response headers are written at once without END_STREAM;
+// trailers (END_STREAM) of a stream that still has queued items go to the END of
+// its queue (behind all its DATA) and nothing is written now; trailers of an idle
+// stream are written with END_STREAM and then the stream is cleaned up.
+//@ func (*loopyWriter).serverHeaderHandler
+//@   prop C02
+//@   requires l != nil && hdr != nil
+//@   assert at return 1 !haskey(l.estdStreams, hdr.streamID) && ncalls("writeHeader") == 0 && ncalls("enqueue") == 0
+//@   assert at call writeHeader#1 !hdr.endStream && arg1 == hdr.streamID && arg2 == false
+//@   assert at call enqueue#1 hdr.endStream && str.state != empty && arg0 == str.itl && arg1 == hdr && ncalls("writeHeader") == 0
+//@   assert at return 3 ncalls("writeHeader") == 0 && ncalls("cleanupStreamHandler") == 0
+//@   assert at call writeHeader#2 hdr.endStream && str.state == empty && arg1 == hdr.streamID && arg2 == true
+//@   assert at call cleanupStreamHandler#1 arg1 == hdr.cleanup && ncalls("writeHeader") == 1 && lastret("writeHeader") == 0
+
+// Cleanup: the stream leaves the established set (and the active list) before
+// the RST_STREAM frame, if any, is written; RST_STREAM carries the item's id and code.
+//@ func (*loopyWriter).cleanupStreamHandler
+//@   prop C02
+//@   opt purecalls onWrite
+//@   requires l != nil
+//@   loop 1 invariant !haskey(l.estdStreams, c.streamID)
+//@   assert at call deleteSelf#1 !haskey(l.estdStreams, c.streamID) && arg0 == str
+//@   assert at call WriteRSTStream#1 c.rst && !haskey(l.estdStreams, c.streamID) && arg1 == c.streamID && arg2 == c.rstCode
+//@   assert at return end implies(!c.rst, ncalls("WriteRSTStream") == 0)
+
+// After a write: trailers are written only when they are the NEXT item of the
+// stream (all earlier DATA items are gone), with the flags they were queued with,
+// followed by the stream's cleanup.
+//@ func (*loopyWriter).updateStreamAfterWrite
+//@   prop C01 C03 C02
+//@   requires l != nil
+//@   assert at call enqueue#1 arg1 == str && Z(l.oiws) - Z(str.bytesOutStanding) > 0
+//@   assert at return 3 (ncalls("enqueue") == 1) == (lastret("isEmpty") == 0 && ncalls("writeHeader") == 0 && int(l.oiws)-str.bytesOutStanding > 0)
+//@   assert at return 3 implies(lastret("isEmpty") == 0 && ncalls("writeHeader") == 0 && int(l.oiws)-str.bytesOutStanding <= 0, str.state == waitingOnStreamQuota)
+//@   assert at call writeHeader#1 lastret("isEmpty") == 0 && ok && arg1 == trailer.streamID && arg2 == trailer.endStream
+//@   assert at call cleanupStreamHandler#1 arg1 == trailer.cleanup && ncalls("writeHeader") == 1 && lastret("writeHeader") == 0
+
+// Client write: a message is queued only on a stream that is still open for
+// writing; the last message moves the stream to write-done in the same atomic
+// step that admits it (so END_STREAM is queued at most once and nothing is
+// queued after it), and carries END_STREAM exactly when it is the last.
+//@ func (*http2Client).write
+//@   prop C02
+//@   requires t != nil && s != nil && opts != nil
+//@   assert at return 1 opts.Last && lastret("compareAndSwapState") == 0 && ncalls("put") == 0
+//@   assert at return 2 !opts.Last && ncalls("put") == 0
+//@   assert at call compareAndSwapState#1 arg1 == streamActive && arg2 == streamWriteDone
+//@   assert at call Len#1 df.endStream == opts.Last && df.streamID == s.id && sameslice(df.h, hdr)
+//@   assert at call Len#1 implies(opts.Last, lastret("compareAndSwapState") != 0)
+//@   assert at call Len#1 implies(!opts.Last, ncalls("compareAndSwapState") == 0 && lastret("getState") == Z(streamActive))
+//@   assert at call put#1 arg1 == df
